@@ -101,9 +101,9 @@ class World:
         self.adv_log = {}
         orig_advance = bp.advance_block
 
-        def advance_block(block):
+        def advance_block(block, *args, **kwargs):
             self.adv_log[block.height] = (block.hex_hash, daemon.cached_height())
-            return orig_advance(block)
+            return orig_advance(block, *args, **kwargs)
         bp.advance_block = advance_block
         notifications.height = daemon.height
         notifications.db_height = lambda: db.state.height
